@@ -1917,3 +1917,400 @@ func ruleC12R7(c *Ctx) {
 		c.OK("no decoded value of package index is built on top of its input bytes", "-", "no retaining decode call present")
 	}
 }
+
+func init() {
+	registerRule(&RuleInfo{ID: "C15.R5", Title: "the mutexes of package index are always taken in one order", Floor: 1, Run: ruleC15R5,
+		Covers: "every pair (A held, B acquired) over the mutex fields of package index, through calls"})
+	registerRule(&RuleInfo{ID: "C19.R6", Title: "the merge budget is computed from the eligible segments only", Floor: 1, Run: ruleC19R6,
+		Covers: "the accumulator handed to CalcBudget in package mergeplan"})
+}
+
+// ---- C15.R5 ---------------------------------------------------------------------------------
+
+// Lock-order graph over the mutex FIELDS of package index (Writer.rootLock, Snapshot.m,
+// Snapshot.m2, ...): an edge A -> B when some function acquires B (itself or in a callee)
+// while it holds A. Two fields that are taken in both orders can deadlock: the introducer
+// holding rootLock and waiting for a snapshot's m2 while a searcher closing an iterator
+// holds that m2 and waits for rootLock - then every Batch, Reader() and Close hangs.
+func ruleC15R5(c *Ctx) {
+	type lockEv struct {
+		in    ssa.Instruction
+		field *types.Var
+		kind  string
+	}
+	mutexField := func(v ssa.Value) *types.Var {
+		fa, ok := v.(*ssa.FieldAddr)
+		if !ok {
+			return nil
+		}
+		fv := fieldVar(fa)
+		if n := namedOf(fv.Type()); n != nil && n.Obj().Pkg() != nil && n.Obj().Pkg().Path() == "sync" && (n.Obj().Name() == "Mutex" || n.Obj().Name() == "RWMutex") {
+			return fv
+		}
+		return nil
+	}
+	fns := c.FuncsIn(pkgIndex)
+	events := map[*ssa.Function][]lockEv{}
+	for _, fn := range fns {
+		eachInstr(fn, func(in ssa.Instruction) {
+			cc := callOf(in)
+			if cc == nil {
+				return
+			}
+			f := staticCallee(cc)
+			if f == nil || f.Pkg == nil || f.Pkg.Pkg.Path() != "sync" || len(cc.Args) == 0 {
+				return
+			}
+			switch f.Name() {
+			case "Lock", "RLock", "Unlock", "RUnlock":
+				if fv := mutexField(cc.Args[0]); fv != nil {
+					events[fn] = append(events[fn], lockEv{in, fv, f.Name()})
+				}
+			}
+		})
+	}
+	// acquires(f): mutex fields f may lock, directly or through callees (light call graph)
+	acquires := map[*ssa.Function]map[*types.Var]bool{}
+	for _, fn := range fns {
+		m := map[*types.Var]bool{}
+		for _, e := range events[fn] {
+			if e.kind == "Lock" || e.kind == "RLock" {
+				m[e.field] = true
+			}
+		}
+		acquires[fn] = m
+	}
+	// through static calls only (methods called through interfaces are left out: resolving them by
+	// type would connect every Close with every other Close and make the graph meaningless)
+	staticCallees := map[*ssa.Function][]*ssa.Function{}
+	for _, fn := range fns {
+		eachInstr(fn, func(in ssa.Instruction) {
+			if _, isGo := in.(*ssa.Go); isGo {
+				return
+			}
+			if cc := callOf(in); cc != nil {
+				if f := staticCallee(cc); f != nil && f.Blocks != nil && funcPkgPath(f) == pkgIndex {
+					staticCallees[fn] = append(staticCallees[fn], f)
+				}
+			}
+		})
+	}
+	for changed := true; changed; {
+		changed = false
+		for _, fn := range fns {
+			for _, callee := range staticCallees[fn] {
+				for fv := range acquires[callee] {
+					if !acquires[fn][fv] {
+						acquires[fn][fv] = true
+						changed = true
+					}
+				}
+			}
+		}
+	}
+	// edges: in fn, between Lock(A) and the matching Unlock(A) (or the end, when the unlock is
+	// deferred), a Lock(B) or a call of something that acquires B
+	type edge struct{ a, b *types.Var }
+	where := map[edge]string{}
+	for _, fn := range fns {
+		for _, e := range events[fn] {
+			if e.kind != "Lock" && e.kind != "RLock" {
+				continue
+			}
+			if _, isDefer := e.in.(*ssa.Defer); isDefer {
+				continue
+			}
+			a := e.field
+			held := func(x ssa.Instruction) bool {
+				// x is reachable from the lock without passing an (immediate) unlock of a
+				ex := &Explorer{Fn: fn}
+				reached := false
+				ex.OnInstr = func(in ssa.Instruction, st *PState) bool {
+					if in == x {
+						reached = true
+						return false
+					}
+					if cc := callOf(in); cc != nil {
+						if _, isDefer := in.(*ssa.Defer); !isDefer {
+							if k := lockCallKind(cc, a); k == "Unlock" || k == "RUnlock" {
+								return false
+							}
+						}
+					}
+					return true
+				}
+				ex.RunAfter(e.in, newPState())
+				return reached
+			}
+			eachInstr(fn, func(x ssa.Instruction) {
+				if x == e.in {
+					return
+				}
+				cc := callOf(x)
+				if cc == nil {
+					return
+				}
+				if _, isGo := x.(*ssa.Go); isGo {
+					return
+				}
+				var bs []*types.Var
+				if f := staticCallee(cc); f != nil && f.Pkg != nil && f.Pkg.Pkg.Path() == "sync" && len(cc.Args) > 0 && (f.Name() == "Lock" || f.Name() == "RLock") {
+					if fv := mutexField(cc.Args[0]); fv != nil && fv != a {
+						bs = append(bs, fv)
+					}
+				} else {
+					for _, callee := range calleesOfCall(c, cc) {
+						for fv := range acquires[callee] {
+							if fv != a {
+								bs = append(bs, fv)
+							}
+						}
+					}
+				}
+				if len(bs) == 0 || !held(x) {
+					return
+				}
+				for _, b := range bs {
+					if _, ok := where[edge{a, b}]; !ok {
+						where[edge{a, b}] = FuncName(fn) + " at " + c.Pos(x.Pos())
+					}
+				}
+			})
+		}
+	}
+	seen := map[edge]bool{}
+	n := 0
+	var edges []edge
+	for e := range where {
+		edges = append(edges, e)
+	}
+	sort.Slice(edges, func(i, j int) bool {
+		return lockFieldName(c, edges[i].a)+lockFieldName(c, edges[i].b) < lockFieldName(c, edges[j].a)+lockFieldName(c, edges[j].b)
+	})
+	for _, e := range edges {
+		w := where[e]
+		if seen[e] || seen[edge{e.b, e.a}] {
+			continue
+		}
+		if lockFieldName(c, e.a) > lockFieldName(c, e.b) {
+			if _, both := where[edge{e.b, e.a}]; both {
+				continue
+			}
+			e = edge{e.a, e.b}
+		}
+		seen[e] = true
+		n++
+		an, bn := lockFieldName(c, e.a), lockFieldName(c, e.b)
+		key := fmt.Sprintf("lock order between %s and %s", an, bn)
+		back, inv := where[edge{e.b, e.a}]
+		c.Check(!inv, key, "-", an+" is held while "+bn+" is taken ("+w+"), never the other way round",
+			an+" is held while "+bn+" is taken in "+w+", and "+bn+" is held while "+an+" is taken in "+back+": two goroutines on these paths wait for each other forever")
+	}
+	if n == 0 {
+		c.OK("no mutex of package index is taken while another one is held", "-", "no nested acquisition")
+	}
+}
+
+func calleesOfCall(c *Ctx, cc *ssa.CallCommon) []*ssa.Function {
+	if f := staticCallee(cc); f != nil && f.Blocks != nil {
+		return []*ssa.Function{f}
+	}
+	return nil
+}
+
+// ---- C19.R6 ---------------------------------------------------------------------------------
+
+// The number of segments the planner tolerates is CalcBudget(total live size of the
+// ELIGIBLE segments, ...). Segments above half the maximum can never merge; counting their
+// bytes inflates the budget and small segments pile up. Every addition to the accumulator
+// that reaches CalcBudget must be control-dependent on the eligibility comparison with
+// MaxSegmentSize/2.
+func ruleC19R6(c *Ctx) {
+	fMax := c.Field(pkgMergeplan, "Options", "MaxSegmentSize")
+	n := 0
+	for _, fn := range c.FuncsIn(pkgMergeplan) {
+		eachInstr(fn, func(in ssa.Instruction) {
+			ci, ok := in.(*ssa.Call)
+			if !ok || ci.Common().IsInvoke() || len(ci.Common().Args) < 2 {
+				return
+			}
+			// the budget function: CalcBudget itself or the configured replacement held in a local
+			isBudget := false
+			if f := ci.Common().StaticCallee(); f != nil {
+				isBudget = f.Name() == "CalcBudget"
+			} else {
+				isBudget = dependsOn(ci.Common().Value, func(y ssa.Value) bool {
+					f, ok := y.(*ssa.Function)
+					return ok && f.Name() == "CalcBudget"
+				})
+			}
+			if !isBudget {
+				return
+			}
+			n++
+			key := "budget accumulator of " + FuncName(fn) + " sums eligible segments only"
+			// the accumulator: the first argument (total size); follow it to the additions
+			acc := ci.Common().Args[0]
+			var adds []*ssa.BinOp
+			seen := map[ssa.Value]bool{}
+			var walk func(v ssa.Value, d int)
+			walk = func(v ssa.Value, d int) {
+				if v == nil || seen[v] || d > 8 {
+					return
+				}
+				seen[v] = true
+				switch x := v.(type) {
+				case *ssa.Phi:
+					for _, e := range x.Edges {
+						walk(e, d+1)
+					}
+				case *ssa.BinOp:
+					if x.Op == token.ADD {
+						adds = append(adds, x)
+						walk(x.X, d+1)
+					}
+				case *ssa.Extract:
+					if call, ok := x.Tuple.(*ssa.Call); ok {
+						if callee := call.Common().StaticCallee(); callee != nil && callee.Blocks != nil {
+							eachInstr(callee, func(g ssa.Instruction) {
+								if r, ok := g.(*ssa.Return); ok && x.Index < len(r.Results) {
+									walk(r.Results[x.Index], d+1)
+								}
+							})
+						}
+					}
+				case *ssa.UnOp:
+					if u, ok := isLoad(x); ok {
+						if al, ok := u.X.(*ssa.Alloc); ok && al.Referrers() != nil {
+							for _, r := range *al.Referrers() {
+								if st, ok := r.(*ssa.Store); ok && st.Addr == ssa.Value(al) {
+									walk(st.Val, d+1)
+								}
+							}
+						}
+					}
+				}
+			}
+			walk(acc, 0)
+			if len(adds) == 0 {
+				c.Undecided(key, c.Pos(ci.Pos()), "no addition feeds the budget accumulator")
+				return
+			}
+			var bad []string
+			for _, ad := range adds {
+				guarded := false
+				eachInstr(ad.Parent(), func(g ssa.Instruction) {
+					iff, ok := g.(*ssa.If)
+					if !ok {
+						return
+					}
+					if !dependsOnField(iff.Cond, fMax) {
+						return
+					}
+					for edge := 0; edge < 2; edge++ {
+						if edgeDominates(iff, edge, ad.Block()) {
+							guarded = true
+						}
+					}
+				})
+				if !guarded {
+					bad = append(bad, c.Pos(ad.Pos()))
+				}
+			}
+			c.Check(len(bad) == 0, key, c.Pos(ci.Pos()), "every addition sits behind the comparison with MaxSegmentSize/2",
+				"the size handed to CalcBudget is increased at "+uniqJoin(bad)+" for segments that did not pass the eligibility test: bytes of segments that can never merge raise the tolerated segment count")
+		})
+	}
+}
+
+// lockFieldName: "Struct.field" of a mutex field of package index.
+func lockFieldName(c *Ctx, fv *types.Var) string {
+	for _, n := range c.Light().named {
+		st, ok := n.Underlying().(*types.Struct)
+		if !ok {
+			continue
+		}
+		for i := 0; i < st.NumFields(); i++ {
+			if st.Field(i) == fv {
+				return n.Obj().Name() + "." + fv.Name()
+			}
+		}
+	}
+	return fv.Name()
+}
+
+func init() {
+	registerRule(&RuleInfo{ID: "C02.R8", Title: "waiters are registered in the critical section that installs their snapshot", Floor: 1, Run: ruleC02R8,
+		Covers: "every function of package index that appends to Writer.rootPersisted / Writer.persistedCallbacks"})
+}
+
+// ---- C02.R8 ---------------------------------------------------------------------------------
+
+// The introducer side of the grab protocol (C02.R6 is the persister side): the ack channel
+// and callback of a batch must be appended to the writer's pending lists in the same
+// rootLock section that makes the snapshot containing the batch the root. Registered in a
+// section of their own (before or after the swap), the persister can take them together
+// with a root that does not contain the batch and acknowledge it for a snapshot that lacks it.
+func ruleC02R8(c *Ctx) {
+	a := c.Idx()
+	ackFields := []*types.Var{a.WRootPersisted, a.WPersistedCallbacks}
+	const (
+		fHeld uint64 = 1 << iota
+		fWrite
+		fDeferred
+		fAppended
+		fRootStored
+	)
+	n := 0
+	for _, fn := range c.FuncsIn(pkgIndex) {
+		var appends []*ssa.Store
+		for _, f := range ackFields {
+			for _, st := range storesToField(fn, f) {
+				if call, ok := st.Val.(*ssa.Call); ok && builtinName(call.Common()) == "append" {
+					appends = append(appends, st)
+				}
+			}
+		}
+		if len(appends) == 0 {
+			continue
+		}
+		n++
+		key := "waiters appended in " + FuncName(fn) + " are registered together with the root swap"
+		var problems []string
+		ex := &Explorer{Fn: fn}
+		ex.OnInstr = func(in ssa.Instruction, st *PState) bool {
+			before := st.Flags
+			if ev := lockStep(in, a.WRootLock, st, fHeld, fWrite, fDeferred); ev == "unlock" {
+				if before&fAppended != 0 && before&fRootStored == 0 {
+					problems = append(problems, "the rootLock section ending at "+c.Pos(in.Pos())+" appends waiters without installing a root")
+				}
+				st.Flags &^= fAppended | fRootStored
+			}
+			if s2, ok := in.(*ssa.Store); ok {
+				for _, ap := range appends {
+					if s2 == ap {
+						st.Flags |= fAppended
+						if st.Flags&fHeld == 0 {
+							problems = append(problems, "waiters are appended at "+c.Pos(in.Pos())+" outside any rootLock section")
+						}
+					}
+				}
+				if isFieldAddr(s2.Addr, a.WRoot) {
+					st.Flags |= fRootStored
+				}
+			}
+			return true
+		}
+		ex.OnReturn = func(r *ssa.Return, st *PState) {
+			if st.Flags&fAppended != 0 && st.Flags&fRootStored == 0 {
+				problems = append(problems, "waiters are appended and the function returns at "+c.Pos(r.Pos())+" without having installed a root in that section")
+			}
+		}
+		ex.Run()
+		if ex.Exceeded {
+			c.Undecided(key, c.Pos(fn.Pos()), "path exploration did not finish")
+			continue
+		}
+		c.Check(len(problems) == 0, key, c.Pos(fn.Pos()), "every section that appends waiters also stores Writer.root", uniqJoin(problems))
+	}
+}
